@@ -4,8 +4,10 @@
 
     SPECIFICATION judged on the implementation's observations, per request:
       - who ran / RouteParam(name) for every name / RouteParamAny are those of the table-level
-        router specification [match_spec] on the routes registered so far — i.e. what a fresh
-        Mux would answer, independent of every earlier or concurrent request;
+        router specification on the routes registered so far ([match_spec_g]: the accepted routes,
+        and the rejected attempts as ghosts that can shadow but never be selected) — i.e. what a
+        fresh Mux with the same registration attempts would answer, independent of every earlier
+        or concurrent request; Handle accepts exactly what [accepts] says;
       - W.Status is 0 at handler entry;
       - GetID() is [prefix ++ base36(t)] with t >= 1, different from every id seen before in the
         history, and over the whole history t <= number of requests;
@@ -21,7 +23,7 @@ From Glb Require Import Lib.RouteBytes Lib.RouteSpec Model.Router Model.StorePoo
 Record cobs := { co_who : who; co_status : N; co_id : list N; co_any : list N; co_vals : list (list N) }.
 
 Inductive ev :=
-| EvRegister (p m : list N)
+| EvRegister (p m : list N) (accepted : bool)           (* Handle returned / panicked and the caller recovered *)
 | EvBegin (k : nat) (path method : list N) (o : cobs)   (* everything read at handler entry *)
 | EvWrite (k : nat) (code : N)                          (* the request's handler or relay set W.Status *)
 | EvFlush (k : nat)                                     (* the handler called W.Flush() *)
@@ -55,7 +57,8 @@ Fixpoint mem_N (x : N) (l : list N) : bool :=
 Record rstate := {
   r_mux : mux;                          (* the model *)
   r_model_ok : bool;                    (* the model could follow every event so far and agreed *)
-  r_routes : list (list N * list N);    (* specification: routes registered so far *)
+  r_routes : list (list N * list N);    (* specification: routes accepted so far *)
+  r_ghosts : list (list pseg);          (* ... and what the rejected attempts left behind *)
   r_tickets : list N;                   (* tickets of all ids seen so far *)
   r_entry : list (nat * cobs);          (* requests in flight: what they read at entry, status updated by their own writes *)
   r_begins : N                          (* number of requests begun *)
@@ -122,18 +125,33 @@ Definition model_step (s : rstate) (l : label) (after : mux -> bool) : mux * boo
 
 (** one event: [None] = the specification fails here *)
 Definition mk (s : rstate) (m' : mux) (ok : bool) (entry : list (nat * cobs)) : rstate :=
-  {| r_mux := m'; r_model_ok := ok; r_routes := r_routes s; r_tickets := r_tickets s;
+  {| r_mux := m'; r_model_ok := ok; r_routes := r_routes s; r_ghosts := r_ghosts s; r_tickets := r_tickets s;
      r_entry := entry; r_begins := r_begins s |}.
+
+Definition spec_obs_g (routes : list (list N * list N)) (ghosts : list (list pseg)) (names : list (list N))
+           (path method : list N) : obs :=
+  match match_spec_g routes ghosts (segments path) method with
+  | Some m => {| o_who := WRoute (m_route m);
+                 o_any := lookup_param (m_names m) (m_values m) any_name;
+                 o_vals := map (lookup_param (m_names m) (m_values m)) names |}
+  | None => {| o_who := WNoRoute; o_any := []; o_vals := map (fun _ => []) names |}
+  end.
 
 Definition check_ev (prefix : list N) (sequential : bool) (names : list (list N)) (s : rstate) (e : ev)
   : option rstate :=
   match e with
-  | EvRegister p m =>
-    let (m', ok) := model_step s (LRegister p m) (fun _ => true) in
-    Some {| r_mux := m'; r_model_ok := ok; r_routes := r_routes s ++ [(p, m)]; r_tickets := r_tickets s;
-            r_entry := r_entry s; r_begins := r_begins s |}
+  | EvRegister p m accepted =>
+    if Bool.eqb (accepts (r_routes s) (p, m)) accepted then
+      let model_accepts := match handle (m_table (r_mux s)) p m with Some _ => true | None => false end in
+      let (m', ok) := model_step s (LRegister p m) (fun _ => Bool.eqb model_accepts accepted) in
+      Some {| r_mux := m'; r_model_ok := ok;
+              r_routes := if accepted then r_routes s ++ [(p, m)] else r_routes s;
+              r_ghosts := if accepted then r_ghosts s
+                          else match ghost_of (p, m) with Some g => r_ghosts s ++ [g] | None => r_ghosts s end;
+              r_tickets := r_tickets s; r_entry := r_entry s; r_begins := r_begins s |}
+    else None
   | EvBegin k path method o =>
-    let expect := spec_obs (r_routes s) names path method in
+    let expect := spec_obs_g (r_routes s) (r_ghosts s) names path method in
     match id_ticket prefix (co_id o) with
     | Some t =>
       if obs_eqb expect {| o_who := co_who o; o_any := co_any o; o_vals := co_vals o |}
@@ -142,7 +160,7 @@ Definition check_ev (prefix : list N) (sequential : bool) (names : list (list N)
       then
         let (m', ok) := model_step s (LBegin k (lifo_choice (r_mux s)) path method)
                                    (fun m' => model_agrees sequential m' k names o) in
-        Some {| r_mux := m'; r_model_ok := ok; r_routes := r_routes s; r_tickets := t :: r_tickets s;
+        Some {| r_mux := m'; r_model_ok := ok; r_routes := r_routes s; r_ghosts := r_ghosts s; r_tickets := t :: r_tickets s;
                 r_entry := (k, o) :: r_entry s; r_begins := (r_begins s + 1)%N |}
       else None
     | None => None
@@ -199,7 +217,7 @@ Fixpoint check_evs (prefix : list N) (sequential : bool) (names : list (list N))
 Definition check_history (prefix : list N) (sequential : bool) (names : list (list N)) (evs : list ev)
   : verdict * nat :=
   check_evs prefix sequential names
-            {| r_mux := new_mux prefix; r_model_ok := true; r_routes := []; r_tickets := [];
+            {| r_mux := new_mux prefix; r_model_ok := true; r_routes := []; r_ghosts := []; r_tickets := [];
                r_entry := []; r_begins := 0%N |} evs 0.
 
 Definition history_ok (v : verdict * nat) : bool := match fst v with VOk => true | _ => false end.
